@@ -32,7 +32,8 @@ import (
 //   * the collector does not tick once its Close has been entered (except the
 //     last tick inside collector.Close, as in vh_C10_history);
 //   * causality: a response with a transaction's ID reaches the reader only
-//     after a request with that ID has been written.
+//     after the write of a request with that ID has been issued (the write may
+//     still be in progress, and may yet fail although the datagram went out).
 
 const (
 	vxGoUser = iota
@@ -87,8 +88,8 @@ type vxHist struct {
 	inner       *Agent
 	txs         [2]vxTx
 	starting    [2]bool   // a Start of this transaction is in progress (its frame may be suspended)
-	w0          [2]int    // number of writes on the connection when that Start began
-	overtook    [2]bool   // a tick or a Close of another goroutine ran while that Start was suspended
+	w0          [2]int    // number of writes issued on the connection when that Start began
+	overtook    [2]bool   // a response, a tick or a Close of another goroutine ran while that Start was suspended
 	reqLen      [2]int    // concrete request length for this transaction (0: symbolic, up to 40 bytes)
 	req         [2][]byte // private copy of the request as it was when Start was called
 	dup         *vxCalls
@@ -122,7 +123,7 @@ func (h *vxHist) cp() {
 	}
 	h.budget--
 	vxReach("nested-event")
-	if k == 3 || k == 4 {
+	if k == 2 || k == 3 || k == 4 {
 		for j := range h.starting {
 			if h.starting[j] {
 				h.overtook[j] = true
@@ -149,9 +150,13 @@ func (h *vxHist) event(kind, ti int, nested bool) {
 		if t.started == 0 {
 			h.starting[ti] = true
 			h.overtook[ti] = false
-			h.w0[ti] = len(env.conn.writes)
+			h.w0[ti] = env.conn.entered
 			h.frames = append(h.frames, vxGoUser)
-			err := env.c.Start(msg, t.rec.handle)
+			rec := t.rec
+			err := env.c.Start(msg, func(e Event) {
+				rec.handle(e)
+				h.cp() // the user's handler is a call-out too: other goroutines may run while it does
+			})
 			h.frames = h.frames[:len(h.frames)-1]
 			h.starting[ti] = false
 			if err == nil {
@@ -173,7 +178,7 @@ func (h *vxHist) event(kind, ti int, nested bool) {
 		}
 	case 2: // the reader delivers a response with this ID (also late / duplicate / unsolicited)
 		vxAssume(!h.has(vxGoReader))
-		vxAssume(!h.starting[ti] || len(env.conn.writes) > h.w0[ti])
+		vxAssume(!h.starting[ti] || env.conn.entered > h.w0[ti])
 		vxAssume(t.started != 0 || h.starting[ti]) // unsolicited responses for never-started IDs: vh_C10_history
 		m := &Message{TransactionID: t.id}
 		if (t.started == 1 || h.starting[ti]) && len(t.rec.events) == 0 {
@@ -238,6 +243,9 @@ func (h *vxHist) check(final bool) {
 		vxAssert(errors.Is(env.c.Indicate(vxRequest(vxID(), 40)), ErrClientClosed), "Indicate after Close returns ErrClientClosed (pre-emption at control points)")
 		vxAssert(len(env.conn.writes) == w, "nothing is written after Close (pre-emption at control points)")
 		vxAssert(len(h.dup.events) == 0, "no handler runs for a Start after Close")
+		// pooled objects: one that was handed back twice would be handed out to two transactions at once
+		a, b := acquireClientTransaction(), acquireClientTransaction()
+		vxAssert(a != b, "two acquisitions never return the same pooled clientTransaction (none was put back twice)")
 	}
 }
 
@@ -263,9 +271,15 @@ func vxNewHist(budget int) *vxHist {
 
 // vh_C10_preempt: a history of top-level events, each of which may be pre-empted at its
 // control points by nested events of other goroutines.
-func vh_C10_preempt() {
-	h := vxNewHist(vxK(1, 2))
-	depth := 2 // depth 3 with two nested events exhausted a budget of 200 000 paths (18 min): not registered
+func vh_C10_preempt() { vxPreempt(2, 1) }
+
+// vh_C10_preempt_deep (thorough tier): one top-level event pre-empted by up to two nested events (e.g. a
+// response and a Close inside one Start), then the final Close.
+func vh_C10_preempt_deep() { vxPreempt(1, 2) }
+
+// depth 3 with one nested event, and depth 2 with two, exhausted a budget of 200 000 paths: not registered
+func vxPreempt(depth, budget int) {
+	h := vxNewHist(budget)
 	for step := 0; step < depth; step++ {
 		h.event(1+vxChoose(5), vxChoose(2), false)
 		if len(h.frames) == 0 {
@@ -299,8 +313,8 @@ func vh_C10_preempt_kf_starterr() {
 		fired = true
 		// Close overtakes the Start whose request is about to be written; the connection then refuses the write
 		h.event(4, 0, true)
-		h.env.conn.failNext = true
 	}
+	h.env.conn.failNext = true
 	err := h.env.c.Start(vxRequest(t.id, 40), t.rec.handle)
 	vxAssert(err != nil, "the write fails")
 	vxAssert(len(t.rec.events) == 0, "If Start returns an error the handler is never invoked (Close overtakes a Start whose write then fails)")
